@@ -121,6 +121,9 @@ const TypesSchema = `module types { namespace "urn:types"; prefix t; revision 0;
   identity base-id;
   identity id-a { base base-id; }
   identity id-b { base id-a; }
+  typedef tu { type union { type int32; type string; } }
+  typedef tu2 { type union { type int32; type string; } }
+  typedef tnu { type union { type boolean; type union { type int32; type string; } } }
   container v {
     leaf s { type string; }
     leaf i8 { type int8; }
@@ -148,6 +151,12 @@ const TypesSchema = `module types { namespace "urn:types"; prefix t; revision 0;
     leaf uid { type union { type identityref { base base-id; } type int32; } }
     leaf ub { type union { type boolean; type int8; } }
     leaf-list lun { type union { type int32; type string; } }
+    leaf tul { type tu; }
+    leaf-list tull { type tu; }
+    leaf-list tu2ll { type tu2; }
+    leaf tu2l { type tu2; }
+    leaf tnul { type tnu; }
+    leaf-list tnull { type tnu; }
     leaf en { type enumeration { enum "1" { value 2; } enum "2" { value 1; } enum "x" { value 7; } } }
     leaf lr { type leafref { path "../i8"; } }
     leaf lre { type leafref { path "../e"; } }
